@@ -1079,7 +1079,9 @@ def replay_known(run):
 def run(run):
     rng = random.Random(run.seed)
     thorough = run.tier == "thorough"
-    run.cov["rule"] = ("surface formulas generated AST-first over 5 grammars (free nonterminals, unnamed quantifiers, "
+    run.cov["rule"] = ("surface formulas generated AST-first over 6 grammars (user-written match expressions whose variable names are "
+                       "partly drawn from the names the elaboration invents, numeric quantifiers with count, infix chains "
+                       "of 3-5 mixed operators, free nonterminals, unnamed quantifiers, "
                        "omitted/explicit/nonterminal `in`, XPath child chains with indices, `..`, infix/prefix/S-expr "
                        "SMT syntax, negative literal, implies/iff/xor, structural predicates); printed by the harness's "
                        "own printers. (i) parse_isla(sugar) vs Coq model elab (strict AST equality). (ii) "
